@@ -526,11 +526,13 @@ func (s *Server) RpcAcceptingState(e *am.Event) {
 
 		// bind to RPC server events (or override)
 		srv.OnDisconnect(func(client *rpc2.Client) {
+			verifSyncAt(s, "rpc.server.onDisconnect")
 			s.Mach.EvRemove1(e, ssS.ClientConnected, Pass(&AClientConnected{
 				Client: client,
 			}))
 		})
 		srv.OnConnect(func(client *rpc2.Client) {
+			verifSyncAt(s, "rpc.server.onConnect")
 			s.Mach.EvAdd1(e, ssS.ClientConnected, Pass(&AClientConnected{
 				Client: client,
 			}))
@@ -750,6 +752,8 @@ func (s *Server) pushClient() {
 	}
 	s.log("pushClient:ok t%d", data.mTrackedTimeSum)
 
+	verifSyncAt(s, "rpc.push.beforeStore")
+	verifSyncAt(s, "rpc.lastpush.store", "push", s.lastPushData, data)
 	s.storeLastPush(data)
 }
 
@@ -773,6 +777,7 @@ func (s *Server) pushUpdateMutations(muts []tracerMutation) error {
 	s.CallCount++
 
 	// TODO failsafe retry (stateful)
+	verifSyncAt(s, "rpc.push.beforeNotify", updateMuts)
 	return c.Notify(ClientUpdateMutations.Value, updateMuts)
 }
 
@@ -798,6 +803,7 @@ func (s *Server) pushUpdateLatest(data *tracerData) error {
 	// fmt.Printf("[S] time %v\n", data.mTime)
 
 	// TODO failsafe retry (stateful)
+	verifSyncAt(s, "rpc.push.beforeNotify", update)
 	return c.Notify(ClientUpdate.Value, update)
 }
 
@@ -819,6 +825,7 @@ func (s *Server) newMsgMutation(
 	// fmt.Printf("[S] QueueTick: %d - %d\n", data.queueTick, s.lastPushQTick)
 	// fmt.Printf("[S] MachTick: %d - %d\n", data.machTick, s.lastPushMachTick)
 
+	verifSyncAt(s, "rpc.lastpush.store", "reply", s.lastPushData, data)
 	s.storeLastPush(data)
 
 	return &r
@@ -910,6 +917,7 @@ func (s *Server) RemoteHello(
 	s.lastPushData.mTrackedTimeSum = tTrackedSum
 	s.lastPush = time.Now()
 	s.clientId.Store(&req.Id)
+	verifSyncAt(s, "rpc.hello", s)
 
 	s.log("RemoteHello: t%v q%d", tTrackedSum, export.QueueTick)
 	s.Mach.Add1(ssS.Handshaking, nil)
@@ -935,6 +943,7 @@ func (s *Server) RemoteHandshake(
 
 	// accept the client
 	s.rpcClient.Store(client)
+	verifSyncAt(s, "rpc.handshake")
 	s.Mach.Add1(ssS.HandshakeDone, Pass(&A{
 		Id: *id,
 	}))
@@ -950,6 +959,7 @@ func (s *Server) RemoteAdd(
 	if s.Mach.Not1(ssS.Start) {
 		return am.ErrCanceled
 	}
+	defer verifSyncAt(s, "rpc.remote.afterReply", resp)
 	s.lockExport.Lock()
 	defer s.lockExport.Unlock()
 
@@ -1016,6 +1026,7 @@ func (s *Server) RemoteRemove(
 	if s.Mach.Not1(ssS.Start) {
 		return am.ErrCanceled
 	}
+	defer verifSyncAt(s, "rpc.remote.afterReply", resp)
 	s.lockExport.Lock()
 	defer s.lockExport.Unlock()
 
@@ -1047,6 +1058,7 @@ func (s *Server) RemoteSet(
 	if s.Mach.Not1(ssS.Start) {
 		return am.ErrCanceled
 	}
+	defer verifSyncAt(s, "rpc.remote.afterReply", resp)
 	s.lockExport.Lock()
 	defer s.lockExport.Unlock()
 
